@@ -179,14 +179,13 @@ def load_path(ctx, ckey, attr):
     interp = PureInterp(ctx, hooks=file_hooks(events, {}))
     interp.events = events
     for m in ci.methods.values():
-        if m.name in ("__attrs_post_init__", "__init__") or any((d or "").endswith(".default") for d in m.decorator_names()):
-            if any("open" in ast.unparse(c.func) for c in ast.walk(m.node) if isinstance(c, ast.Call)):
-                try:
-                    interp.call(m, (), {}, self_obj=obj)
-                except (Raised, Unsupported):
-                    pass
+        if m.name in ("__attrs_post_init__",) or any((d or "").endswith(".default") for d in m.decorator_names()):
+            try:
+                interp.call(m, (), {}, self_obj=obj)  # helpers it delegates to are followed by the interpreter
+            except (Raised, Unsupported):
+                pass
     for e in events:
-        if e[0] == "open":
+        if e[0] == "open" and "w" not in str(e[2]) and "a" not in str(e[2]):
             return e[1]
     return None
 
